@@ -2,6 +2,7 @@ package main
 
 import (
 	"bytes"
+	"time"
 	"encoding/json"
 	"fmt"
 	"sync"
@@ -99,7 +100,16 @@ func init() {
 			return nil, err
 		}
 		out := make([]apiSeqResult, len(in.Cases))
-		parallel(len(in.Cases), func(i int) { out[i] = runAPISeq(in.Cases[i]) })
+		parallel(len(in.Cases), func(i int) {
+			// a call that never returns (a lock left held, ...) must not hang the harness
+			ch := make(chan apiSeqResult, 1)
+			go func() { ch <- runAPISeq(in.Cases[i]) }()
+			select {
+			case out[i] = <-ch:
+			case <-time.After(60 * time.Second):
+				out[i] = apiSeqResult{Mismatches: []string{"the sequence of Apply calls did not finish within 60 s (a call never returned)"}}
+			}
+		})
 		return map[string]any{"results": out}, nil
 	}
 }
